@@ -294,6 +294,10 @@ def get_deterministic_sign_multiplier(data: DataArray, dim: str) -> DataArray:
     min_max = xr.concat([data.max(dim), data.min(dim)], dim="sign")
     min_max = min_max.assign_coords(sign=[1, -1])
     sign_multiplier = np.abs(min_max).idxmax("sign")
+    # If all (real) entries are negative and |max| == |min|, the entry of largest
+    # magnitude is negative although `idxmax` picks the first label (+1)
+    if not np.iscomplexobj(data):
+        sign_multiplier = sign_multiplier.where(data.max(dim) >= 0, -1)
     # Drop all dimensions except 'mode' so that the index is clean
     for dim, coords in sign_multiplier.coords.items():
         if dim != "mode":
